@@ -162,12 +162,26 @@ def cosim(gdir, seed=None, histories=300, length=80):
                            os.path.join(VERIF, 'replay', 'driver.cpp'), os.path.join(VERIF, 'replay', 'replay.cpp')] + objs + ['-o', drv, '-lpthread'], timeout=600, mem_kb=0)
     if rc != 0:
         raise Undecided('native driver does not build:\n' + err[-3000:])
-    seed = seed if seed is not None else int(os.environ.get('VERIF_SEED', '1'))
-    rc, out, err, _ = run([drv, 'cosim', str(seed), str(histories), str(length)], timeout=600, mem_kb=0)
-    m = re.search(r'(\d+) calls compared', out)
-    if rc != 0 or not m:
-        raise Undecided('co-simulation: extracted C disagrees with the real library (extractor/model defect, or the real library crashed)\n' + (out + err)[-3000:])
-    return int(m.group(1))
+    seed = seed if seed is not None else int(os.environ.get('VERIF_SEED', '1') or 1)
+    total = 0
+    ub = []
+    names = [i['cname'] for i in info]
+    with concurrent.futures.ThreadPoolExecutor(max_workers=len(names)) as ex:
+        futs = {n: ex.submit(run, [drv, 'cosim', str(seed), str(histories), str(length), n], 600, 0) for n in names}
+    for n in names:
+        rc, out, err, _ = futs[n].result()
+        m = re.search(r'(\d+) calls compared', out)
+        if m:
+            total += int(m.group(1))
+        if rc == 0:
+            continue
+        if rc == 3 or rc < 0 or rc > 128:
+            # undefined behaviour on a concrete history (model precondition failed, or the real library crashed):
+            # the extraction is not at fault; the deductive check decides, and the history is kept as a lead
+            ub.append(dict(container=n, how='model-precondition' if rc == 3 else 'real library crashed (rc %d)' % rc, detail=err[-1500:]))
+            continue
+        raise Undecided('co-simulation: extracted C disagrees with the real library on %s (extractor/model defect)\n' % n + (out + err)[-3000:])
+    return dict(calls=total, ub=ub)
 
 
 # ------------------------------------------------------------------------------------------------
@@ -177,12 +191,22 @@ def cosim(gdir, seed=None, histories=300, length=80):
 class Unit:
     """one contract enforcement: goto-cc -> goto-instrument --dfcc -> cbmc"""
 
-    def __init__(self, container, fn, maxcap, spec, info, gen, lockcov=False, timeout=900, modular=False):
+    def __init__(self, container, fn, maxcap, spec, info, gen, lockcov=False, timeout=900, modular=False, sym=False, case=None):
         self.container, self.fn, self.maxcap, self.spec, self.info, self.gen = container, fn, maxcap, spec, info, gen
         self.lockcov = lockcov
         self.timeout = timeout
         self.modular = modular  # True: callees that have a contract are replaced by it (DFCC); False: inlined
-        self.id = '%s/B%d%s%s' % (fn, maxcap, '/lockcov' if lockcov else '', '/modular' if modular else '')
+        self.sym = sym and bool(spec.canon) and not fn.endswith('__ctor')  # symmetry-reduced pre-state (canonical node numbering)
+        self.case = case  # (index, expr): one case of a case split of the precondition
+        self.id = '%s/B%d%s%s%s%s' % (fn, maxcap, '/lockcov' if lockcov else '', '/modular' if modular else '', '/sym' if self.sym else '', '/case%d' % case[0] if case else '')
+
+    def extra_requires(self):
+        x = []
+        if self.sym:
+            x.append(self.spec.canon)
+        if self.case:
+            x.append(self.case[1])
+        return {self.fn: x}
 
     def finfo(self):
         return [f for f in self.info['functions'] if f['cname'] == self.fn][0]
@@ -228,10 +252,10 @@ class Unit:
         return '\n'.join(L)
 
     def key(self, contracts_text):
-        cst = hash_files(files_under(os.path.join(VERIF, 'cstl')) + [os.path.join(VERIF, 'contracts', 'spec_common.h'), os.path.join(VERIF, 'contracts', self.spec.header)])
+        cst = hash_files(files_under(os.path.join(VERIF, 'cstl')) + files_under(os.path.join(VERIF, 'contracts'), {'.h'}))
         common = file_bytes(os.path.join(self.gen, 'gen_common.h'))
         hdr = file_bytes(os.path.join(self.gen, self.info['cname'] + '.h'))
-        return sha(self.id, contracts_text, cst, common, hdr, self.harness(), ' '.join(CBMC_CHECKS), 'v3')
+        return sha(self.id, contracts_text, cst, common, hdr, self.harness(), ' '.join(CBMC_CHECKS), 'v4')
 
 
 PREAMBLE = '''
@@ -252,10 +276,10 @@ COV_DEF = '''
 '''
 
 
-def contracts_source(gen, info, spec, lockcov=False):
+def contracts_source(gen, info, spec, lockcov=False, extra_requires=None):
     sub = gen if not lockcov else gen + '_lockcov'
     csrc = open(os.path.join(sub, info['cname'] + '.c')).read()
-    text, linemap, missing = specparse.insert_contracts(csrc, spec, [spec.header])
+    text, linemap, missing = specparse.insert_contracts(csrc, spec, [spec.header], extra_requires)
     if missing:
         raise Undecided('contract anchor missing: %s has contracts for functions that no longer exist: %s' % (spec.container, ', '.join(missing)))
     return text, linemap
@@ -298,7 +322,7 @@ def classify(res, unit, linemap, srcname):
 
 def run_unit(unit, want_trace=False):
     """returns result dict (cached)"""
-    text, linemap = contracts_source(unit.gen, unit.info, unit.spec, unit.lockcov)
+    text, linemap = contracts_source(unit.gen, unit.info, unit.spec, unit.lockcov, unit.extra_requires())
     key = unit.key(text)
     udir = os.path.join(BUILD, 'units', key)
     resf = os.path.join(udir, 'result.json')
